@@ -239,3 +239,30 @@ package streams
 //@   pure
 //@   requires sc.ReadCloserClosed != nil && sc.WriteCloserClosed != nil
 //@   ensures result == (G_isclosed(sc.ReadCloserClosed) && G_isclosed(sc.WriteCloserClosed))
+
+// ---------------------------------------------------------------------------------------------
+// C14 / C17: piping two streams.  G_chansends(c) counts the sends performed (or promised by started
+// goroutines) on channel c; the engine checks sends <= capacity + receives for every channel made in a function.
+//@ ghost G_chansends(x interface{}) int
+
+//@ func pipeData
+//@   property C14, C17
+//@   safe
+//@   requires r != nil && w != nil
+//@   modifies r.*, w.*, G_chansends(errs)
+//@   ensures G_chansends(errs) == old(G_chansends(errs)) + 1                         :reports_exactly_once
+
+//@ func pipeDebugData
+//@   property C14, C17
+//@   requires r != nil && w != nil
+//@   modifies r.*, w.*, G_chansends(errs)
+//@   ensures G_chansends(errs) == old(G_chansends(errs)) + 1
+//@   trusted "debug variant (SOCKETACE_PIPE_DEBUG=1): wraps both ends in logging tee/multi writers and calls pipeData"
+
+//@ func PipeData
+//@   property C14, C17
+//@   safe
+//@   requires down != nil && up != nil && !spec_sameref(down, up)
+//@   modifies down.*, up.*, G_closes(down), G_isclosed(down), G_closes(up), G_isclosed(up)
+//@   ensures !old(reportsClosed(down)) ==> G_closes(down) == old(G_closes(down)) + 1     :downstream_closed
+//@   ensures !old(reportsClosed(up)) ==> G_closes(up) == old(G_closes(up)) + 1           :upstream_closed
